@@ -30,6 +30,25 @@ def _boolish(e):
     return False
 
 
+def _enumref(e):
+    """parquet_thrift.<Enum>.<MEMBER> -> (Enum, MEMBER)"""
+    if isinstance(e, ast.Attribute) and isinstance(e.value, ast.Attribute) and isinstance(e.value.value, ast.Name) \
+            and e.value.value.id == "parquet_thrift" and e.value.attr in ENUMS:
+        return (e.value.attr, e.attr)
+    return None
+
+
+def enum_uses(path):
+    """every `parquet_thrift.<Enum>.<NAME>` in the file (constants only; `_VALUES_TO_NAMES` lookups etc. are skipped)"""
+    tree = ast.parse(open(path, encoding="utf-8").read(), filename=path)
+    out = set()
+    for node in ast.walk(tree):
+        r = _enumref(node)
+        if r and not r[1].startswith("_"):
+            out.add(r)
+    return sorted(out)
+
+
 def sites(path):
     fn = os.path.basename(path)
     tree = ast.parse(open(path, encoding="utf-8").read(), filename=path)
@@ -58,7 +77,7 @@ def sites(path):
         where = "%s:%d" % (fn, node.lineno)
         if args:
             raise CallsiteError("%s: positional field arguments" % where)
-        fields, boolish, i32, i32l = [], [], False, None
+        fields, boolish, i32, i32l, enumrefs, intlits = [], [], False, None, [], []
         for k in node.keywords:
             if k.arg is None:
                 raise CallsiteError("%s: **kwargs" % where)
@@ -79,7 +98,12 @@ def sites(path):
                 fields.append(k.arg)
                 if _boolish(k.value):
                     boolish.append(k.arg)
-        out.append((fn, node.lineno, name, fields, boolish, i32, i32l))
+                r = _enumref(k.value)
+                if r:
+                    enumrefs.append((k.arg, r[0], r[1]))
+                elif isinstance(k.value, ast.Constant) and isinstance(k.value.value, int) and not isinstance(k.value.value, bool):
+                    intlits.append((k.arg, k.value.value))
+        out.append((fn, node.lineno, name, fields, boolish, i32, i32l, enumrefs, intlits))
     out.sort(key=lambda s: (s[0], s[1], s[2]))
     return out
 
@@ -90,19 +114,23 @@ def _s(x):
     return '"%s"' % x
 
 
-def translate(paths):
+def translate(paths, enum_paths=None):
     allsites = []
     for p in paths:
         allsites += sites(p)
     if not allsites:
         raise CallsiteError("no construction site found (the translator no longer understands the sources)")
-    o = ["From Coq Require Import NArith List String.", "From Pq Require Import Thrift.Tables.", "Import ListNotations.",
+    uses = sorted(set(u for p in (enum_paths or paths) for u in enum_uses(p)))
+    o = ["From Coq Require Import NArith ZArith List String.", "From Pq Require Import Thrift.Tables.", "Import ListNotations.",
          "Open Scope string_scope.", "Open Scope N_scope.", "", "Definition callsites : list callsite :=", " ["]
-    o.append(";\n".join("  mkCS %s %d %s [%s] [%s] %s %s" % (
+    o.append(";\n".join("  mkCS %s %d %s [%s] [%s] %s %s [%s] [%s]" % (
         _s(fn), ln, _s(name), "; ".join(_s(f) for f in fields), "; ".join(_s(f) for f in boolish),
-        "true" if i32 else "false", "None" if i32l is None else "(Some [%s])" % "; ".join(str(i) for i in i32l))
-        for fn, ln, name, fields, boolish, i32, i32l in allsites))
-    o += [" ]."]
+        "true" if i32 else "false", "None" if i32l is None else "(Some [%s])" % "; ".join(str(i) for i in i32l),
+        "; ".join("(%s, (%s, %s))" % (_s(f), _s(e), _s(m)) for f, e, m in enumrefs),
+        "; ".join("(%s, %s%%Z)" % (_s(f), ("(%d)" % z) if z < 0 else str(z)) for f, z in intlits))
+        for fn, ln, name, fields, boolish, i32, i32l, enumrefs, intlits in allsites))
+    o += [" ].", "", "(* every `parquet_thrift.<Enum>.<NAME>` constant the files mention *)",
+          "Definition enum_uses : list (string * string) :=", " [" + "; ".join("(%s, %s)" % (_s(e), _s(m)) for e, m in uses) + "]."]
     return "\n".join(o) + "\n"
 
 
